@@ -559,6 +559,17 @@ class PrettyPrinter:
                 # skip hidden attributes
                 continue
 
+            if (
+                isinstance(value, dict)
+                and "__type__" not in value
+                and attr
+                not in ("metadata", "validation", "values", "connectionoptions", "config")
+            ):
+                # e.g. a dict created by reading a missing key such as d["include"] or d["pattern"]
+                raise ValueError(
+                    f"The property {attr} has a dictionary without a __type__ as a value"
+                )
+
             if self.is_hidden_container(attr, value):
                 # now recursively print all the items in the container
                 for v in value:
